@@ -315,6 +315,10 @@ impl Iterator for ParallelHeapIter<'_> {
 
                                     some_or_return!(self.parallel_cmp((a1, n1), (2, atom!(".")), v1, v2));
 
+                                    // like every other arm: a pair met again is skipped, or
+                                    // the walk never ends on cyclic terms.
+                                    self.tabu_list.insert(key);
+
                                     // the stack is LIFO: the tails go in first so that the
                                     // heads are compared first, as in every other arm.
                                     self.stack.push((self.heap[s1+2], self.heap[l2+1]));
